@@ -41,3 +41,6 @@ for name in names:
     for p in meta['caught_by']:
         for l in checks[p]['lines']:
             if l.startswith('VIOLATION'): print('   ', p, l[:200])
+# evidence files written while a change was applied are not evidence about the tree: restore the committed ones
+import subprocess as _sp
+_sp.run(['git', '-C', '/verif', 'checkout', '--', 'evidence'])
